@@ -39,6 +39,10 @@ RULE = (
     "or >= 1 HSTRP option."
 )
 ASSUMPTIONS = [
+    "stability clauses: every object is serialised twice (same octets), the same octets are parsed twice (same fields), "
+    "serialising must not change the field dump of the PDU, and the same PDU object is nested in two different HRNP and two "
+    "different HSTRP wrappers (second wrapper = reference assembly of the unchanged inner octets; inner object and first "
+    "wrappers unchanged afterwards)",
     "frame reference vp/refs/hytera_ref.py written from the frame descriptions / kaitai specs and validated against 59 "
     "captured byte strings of the repository's tests (selfcheck at start of every run)",
     "payload layouts of RRS / LP / TMP (field order, widths, big-endian numbers, zero-padded fixed-width GPS text, NUL fill "
@@ -322,9 +326,14 @@ def oracle_pdu(case):
 
     # ---- bare PDU
     pdu = call(build_pdu, case, clause="build_no_exception")[1]
+    built = dump(pdu)
     frame = call(pdu.as_bytes, clause="serialise_no_exception")[1]
     if not isinstance(frame, bytes):
         raise Fail("as_bytes_returns_bytes", type(frame).__name__, "bytes")
+    frame_2 = call(pdu.as_bytes, clause="serialise_no_exception")[1]
+    if frame_2 != frame:
+        raise Fail("serialise_twice_same_octets", frame_2.hex(), frame.hex())
+    _unchanged("serialising_leaves_the_pdu_unchanged", pdu, built)
     n = call(len, pdu, clause="serialise_no_exception")[1]
     if n != len(frame):
         raise Fail("len_equals_octets_produced", n, len(frame))
@@ -339,6 +348,12 @@ def oracle_pdu(case):
     if again != frame:
         raise Fail("reencode_equal_octets", again.hex(), frame.hex())
     expect_equal_dump("roundtrip_fields_equal", back, pdu)
+    # fixed point must be stable: the same octets parse to the same fields again, the same parsed object serialises the same again
+    back_2 = call(HDAP.from_bytes, frame, clause="parse_no_exception")[1]
+    expect_equal_dump("parse_twice_same_fields", back_2, back)
+    again_2 = call(back.as_bytes, clause="reserialise_no_exception")[1]
+    if again_2 != again:
+        raise Fail("reserialise_twice_same_octets", again_2.hex(), again.hex())
 
     # ---- nested in HRNP (DATA)
     h = case["hrnp"]
@@ -391,6 +406,35 @@ def oracle_pdu(case):
         raise Fail("hstrp_reencode_equal_octets", sagain.hex(), sb.hex())
     expect_equal_dump("hstrp_roundtrip_fields_equal", sback, sp)
 
+    # ---- the same inner object in a second, different HRNP / HSTRP wrapper; wrappers and inner object stay as they were
+    h2 = {"version": (h["version"] + 1) % 5, "block": h["block"] ^ 0xFF, "src": h["dst"], "dst": h["src"], "pn": h["pn"] ^ 0xFFFF}
+    hp2 = call(HRNP, data=pdu, opcode=HRNPOpcodes.DATA, source=h2["src"], destination=h2["dst"], block_number=h2["block"],
+               packet_number=h2["pn"], version=h2["version"], clause="hrnp_build_no_exception")[1]
+    hb2 = call(hp2.as_bytes, clause="hrnp_serialise_no_exception")[1]
+    want2 = ref.hrnp_frame(h2["version"], h2["block"], ref.HRNP_OPCODES["DATA"], h2["src"], h2["dst"], h2["pn"], frame)
+    if hb2 != want2:
+        raise Fail("hrnp_second_wrapper_of_same_pdu_equals_reference", hb2.hex(), want2.hex())
+    for clause, fn, first in (("hrnp_serialise_twice_same_octets", hp.as_bytes, hb), ("hrnp_reserialise_twice_same_octets", hback.as_bytes, hb),
+                              ("hstrp_serialise_twice_same_octets", sp.as_bytes, sb), ("hstrp_reserialise_twice_same_octets", sback.as_bytes, sb)):
+        second = call(fn, clause=clause.replace("twice_same_octets", "no_exception"))[1]
+        if second != first:
+            raise Fail(clause, second.hex(), first.hex())
+    env2 = dict(env, sn=env["sn"] ^ 0xFFFF, version=env["version"] ^ 0xFF, options=list(reversed(env["options"])))
+    sb2 = call(call(build_hstrp, env2, pdu, clause="hstrp_build_no_exception")[1].as_bytes, clause="hstrp_serialise_no_exception")[1]
+    want2 = ref.hstrp_frame(env2["version"], env2["flags"], env2["sn"], list(reversed(opts)), frame)
+    if sb2 != want2:
+        raise Fail("hstrp_second_wrapper_of_same_pdu_equals_reference", sb2.hex(), want2.hex())
+    frame_3 = call(pdu.as_bytes, clause="serialise_no_exception")[1]
+    if frame_3 != frame:
+        raise Fail("inner_pdu_octets_unchanged_by_wrappers", frame_3.hex(), frame.hex())
+    _unchanged("inner_pdu_fields_unchanged_by_wrappers", pdu, built)
+
+
+def _unchanged(clause: str, obj, before):
+    d = first_diff(dump(obj), before)
+    if d:
+        raise Fail(clause, observed={"path": d[0], "now": d[1]}, expected={"path": d[0], "before": d[2]})
+
 
 def oracle_transport(case):
     """HRNP control packets (no data) and HSTRP datagrams without application payload."""
@@ -413,6 +457,9 @@ def oracle_transport(case):
         if call(hback.as_bytes)[1] != hb:
             raise Fail("hrnp_reencode_equal_octets", hback.as_bytes().hex(), hb.hex())
         expect_equal_dump("hrnp_roundtrip_fields_equal", hback, hp, ignore=("checksum_correct",))
+        for clause, fn in (("hrnp_serialise_twice_same_octets", hp.as_bytes), ("hrnp_reserialise_twice_same_octets", hback.as_bytes)):
+            if call(fn)[1] != hb:
+                raise Fail(clause, fn().hex(), hb.hex())
     else:
         env = case["hstrp"]
         sp = call(build_hstrp, env, None)[1]
@@ -427,6 +474,9 @@ def oracle_transport(case):
         if call(sback.as_bytes)[1] != sb:
             raise Fail("hstrp_reencode_equal_octets", sback.as_bytes().hex(), sb.hex())
         expect_equal_dump("hstrp_roundtrip_fields_equal", sback, sp)
+        for clause, fn in (("hstrp_serialise_twice_same_octets", sp.as_bytes), ("hstrp_reserialise_twice_same_octets", sback.as_bytes)):
+            if call(fn)[1] != sb:
+                raise Fail(clause, fn().hex(), sb.hex())
 
 
 # ------------------------------------------------------------------------------------------------------ strategies
